@@ -1,24 +1,28 @@
 //go:build verif
 
-// Driver "flowcall" (property C04, caller level): real SendStreams, ReceiveStreams and the real framer,
-// each stream with a real stream flow controller, all sharing one real connection flow controller —
-// wired as connection.go wires them. The oracle does not predict the frames (the stream machinery is
-// modelled by other properties); it runs the C04 monitors on the trace:
+// Driver "flowcall" (property C04, caller level): a real *Conn built far enough to run the real
+// handleTransportParameters / applyTransportParameters, the real streams map (every stream flow
+// controller comes out of the real Conn.newFlowController closure), real SendStreams / ReceiveStreams,
+// the real framer and the streams map's frame dispatch. No packer / crypto / run loop: the driver plays
+// the run loop. The oracle predicts the initial windows of each stream (model of the closure) and runs
+// the C04 monitors on the trace; the frames themselves are echoed (modelled by other properties).
 //
-//	init <crw> <cmaxrw>                      => ok
-//	snd.new <sw>                             => <sid>          rcv.new <rw> <maxrw> => <rid>
+//	init <c|s> <crw> <cmaxrw> <srw> <smaxrw> <pMaxData> <pBidiLocal> <pBidiRemote> <pUni>   => ok
+//	     (perspective, our receive-window configuration, the peer's transport parameters)
+//	open <lb|lu|pb|pu>                       => s=<sidx|-> r=<ridx|-> id=<streamID> sw=<n|-> rw=<n|->
+//	     (we open a bidi / uni stream; the peer opens a bidi / uni stream)
 //	w <sid> <n>                              => n=<k> | started    (a Write that does not fit the frame buffer runs in a goroutine)
 //	close <sid>                              => ok | E:other
 //	smax <sid> <v> | cmax <v>                => ok             (MAX_STREAM_DATA / MAX_DATA received)
 //	pack <maxLen> <now>                      => S:<sid>:<off>:<len>:<fin> SB:<sid>:<limit> DB:<limit> MS:<rid>:<v> MD:<v> X:<other> ... | -
 //	lost <k> | acked <k>                     => ok             (k-th outstanding STREAM frame)
-//	frame <rid> <off> <len> <fin> <now>      => ok | E:FLOW_CONTROL_ERROR | E:FINAL_SIZE_ERROR | E:other
-//	rst <rid> <final> <now>                  => ok | E:..      (RESET_STREAM received)
+//	frame <rid> <off> <len> <fin> <now>      => ok | gone | E:FLOW_CONTROL_ERROR | E:FINAL_SIZE_ERROR | E:other
+//	rst <rid> <final> <reliable> <now>       => ok | gone | E:..   (RESET_STREAM / RESET_STREAM_AT received)
 //	rd <rid> <n>                             => n=<k> ok|eof|E:cancel|E:reset|E:other
 //	cancel <rid>                             => ok
-//	cupd <now>                               => <v>            (connection.go: GetWindowUpdate, queue MAX_DATA if > 0)
+//	cupd <now>                               => <v>            (MAX_DATA step of Conn.sendPackets)
 //
-// every result is followed by ` | c=<connection controller dump> done=<completed stream ids>`.
+// every result is followed by ` | c=<connection controller dump>`.
 package flowcall
 
 import (
@@ -37,14 +41,13 @@ import (
 	"github.com/refraction-networking/uquic/internal/monotime"
 	"github.com/refraction-networking/uquic/internal/protocol"
 	"github.com/refraction-networking/uquic/internal/qerr"
-	"github.com/refraction-networking/uquic/internal/utils"
 	"github.com/refraction-networking/uquic/internal/verifharness/vh"
 	"github.com/refraction-networking/uquic/internal/wire"
 )
 
 type sendSt struct {
 	s       *quic.SendStream
-	fc      flowcontrol.StreamFlowController
+	id      protocol.StreamID
 	written int64 // bytes accepted by completed Write calls + bytes of a running Write
 	newEnd  int64 // highest offset+len of any STREAM frame popped
 	writing bool  // a Write goroutine is running
@@ -54,10 +57,11 @@ type sendSt struct {
 
 type recvSt struct {
 	s         *quic.ReceiveStream
-	fc        flowcontrol.StreamFlowController
+	id        protocol.StreamID
 	ivs       [][2]int64 // received intervals (merged, sorted) — to know whether Read would block
 	readPos   int64
 	final     int64 // -1 unknown
+	reliable  int64 // reliable size after RESET_STREAM_AT (same update rule as the stream)
 	cancelled bool
 	reset     bool
 	dead      bool // EOF or error was returned
@@ -70,12 +74,15 @@ type outFrame struct {
 }
 
 type runner struct {
-	rtt  *utils.RTTStats
-	conn flowcontrol.ConnectionFlowController
-	h    *quic.VerifFCHarness
-	snd  []*sendSt
-	rcv  []*recvSt
-	out  []outFrame // outstanding STREAM frames
+	conn   flowcontrol.ConnectionFlowController
+	h      *quic.VerifFCConn
+	client bool
+	snd    []*sendSt
+	rcv    []*recvSt
+	sidx   map[protocol.StreamID]int
+	ridx   map[protocol.StreamID]int
+	nPeer  [2]int64   // peer-opened bidi / uni streams so far
+	out    []outFrame // outstanding STREAM frames
 
 	now     int64
 	style   int
@@ -84,23 +91,40 @@ type runner struct {
 }
 
 func newRunner(r *vh.Rand) vh.Runner {
-	return &runner{now: 1 + r.Range(0, 1_000_000_000), style: r.Pick(30, 50, 20)}
+	return &runner{now: 1 + r.Range(0, 1_000_000_000), style: r.Pick(30, 50, 20),
+		sidx: map[protocol.StreamID]int{}, ridx: map[protocol.StreamID]int{}}
 }
 
 func (rn *runner) win(r *vh.Rand) int64 {
 	switch rn.style {
 	case 0:
-		return r.Range(0, 300)
+		return r.Range(1, 300)
 	case 1:
 		return r.Range(200, 6000)
 	}
 	return r.Range(3000, 200_000)
 }
 
+var kinds = []string{"lb", "lu", "pb", "pu"}
+
 func (rn *runner) GenOp(r *vh.Rand, i int) string {
 	if i == 0 {
-		w := rn.win(r) * 2
-		return fmt.Sprintf("init %d %d", w, w*int64(1+r.Intn(4)))
+		crw := rn.win(r) * 2
+		srw := rn.win(r)
+		// the peer's limits for the three kinds of streams are drawn independently (asymmetric)
+		pl, pr, pu := rn.win(r), rn.win(r), rn.win(r)
+		if r.Chance(15) {
+			pl = 0
+		}
+		if r.Chance(15) {
+			pr = 0
+		}
+		pmd := rn.win(r) * int64(1+r.Intn(3))
+		if r.Chance(20) {
+			pmd = 0
+		}
+		return fmt.Sprintf("init %s %d %d %d %d %d %d %d %d", []string{"c", "s"}[r.Intn(2)], crw, crw*int64(1+r.Intn(4)),
+			srw, srw*int64(1+r.Intn(4)), pmd, pl, pr, pu)
 	}
 	if rn.conn == nil {
 		return ""
@@ -112,22 +136,20 @@ func (rn *runner) GenOp(r *vh.Rand, i int) string {
 		rn.dead--
 	}
 	rn.now += r.Range(0, 30_000_000)
-	if len(rn.snd) < 1 || (len(rn.snd) < 4 && r.Chance(6)) {
-		sw := rn.win(r)
-		if r.Chance(25) {
-			sw = 0
-		}
-		return fmt.Sprintf("snd.new %d", sw)
+	if len(rn.snd) < 1 {
+		return "open " + kinds[r.Pick(40, 20, 40, 0)]
 	}
-	if len(rn.rcv) < 1 || (len(rn.rcv) < 4 && r.Chance(6)) {
-		w := rn.win(r)
-		return fmt.Sprintf("rcv.new %d %d", w, w*int64(1+r.Intn(4)))
+	if len(rn.rcv) < 1 {
+		return "open " + kinds[r.Pick(35, 0, 35, 30)]
+	}
+	if len(rn.snd)+len(rn.rcv) < 10 && r.Chance(7) {
+		return "open " + kinds[r.Intn(4)]
 	}
 	si := r.Intn(len(rn.snd))
 	ss := rn.snd[si]
 	ri := r.Intn(len(rn.rcv))
 	rs := rn.rcv[ri]
-	switch r.Pick(14, 2, 7, 5, 22, 3, 2, 20, 2, 14, 2, 7) {
+	switch r.Pick(14, 2, 7, 5, 22, 3, 2, 20, 4, 16, 2, 7) {
 	case 0: // write
 		var n int64
 		switch r.Pick(50, 30, 20) {
@@ -142,7 +164,7 @@ func (rn *runner) GenOp(r *vh.Rand, i int) string {
 	case 1:
 		return fmt.Sprintf("close %d", si)
 	case 2: // MAX_STREAM_DATA
-		cur := int64(ss.fc.SendWindowSize()) + ss.newEnd
+		cur := field(quic.VerifFCSendDump(ss.s), 1)
 		var v int64
 		switch r.Pick(60, 15, 25) {
 		case 0:
@@ -192,9 +214,16 @@ func (rn *runner) GenOp(r *vh.Rand, i int) string {
 		var off, ln int64
 		fin := 0
 		if rs.final >= 0 {
-			// retransmissions within the final size, rarely something inconsistent
-			ln = r.Range(0, min(rs.final, 1200))
-			off = r.Range(0, rs.final-ln)
+			// the final size is known (FIN or RESET_STREAM[_AT]): data within it, mostly filling in order
+			// (a reset stream still needs its reliable part), rarely something inconsistent
+			switch r.Pick(60, 30, 10) {
+			case 0:
+				off = rs.avail()
+				ln = r.Range(0, max(min(rs.final-off, 1200), 0))
+			default:
+				ln = r.Range(0, min(rs.final, 1200))
+				off = r.Range(0, rs.final-ln)
+			}
 			if off+ln == rs.final && r.Bool() {
 				fin = 1
 			}
@@ -250,25 +279,54 @@ func (rn *runner) GenOp(r *vh.Rand, i int) string {
 			fin = 1
 		}
 		return fmt.Sprintf("frame %d %d %d %d %d", ri, off, ln, fin, rn.now)
-	case 8: // RESET_STREAM
+	case 8: // RESET_STREAM / RESET_STREAM_AT
 		hr, lim, climRoom := rn.recvRoom(ri)
 		fs := hr + r.Range(0, max(min(lim-hr, climRoom), 0))
 		if rs.final >= 0 {
 			fs = rs.final
 		}
-		if r.Chance(8) {
+		if r.Chance(6) {
 			fs = max(fs-1, 0)
 		}
-		return fmt.Sprintf("rst %d %d %d", ri, fs, rn.now)
+		// reliable size: 0 (plain RESET_STREAM), before / at / after the read position, at / beyond the
+		// contiguous data, the whole stream
+		var rel int64
+		av := rs.avail()
+		switch r.Pick(30, 10, 10, 20, 10, 10, 10) {
+		case 0:
+			rel = 0
+		case 1:
+			rel = r.Range(0, rs.readPos)
+		case 2:
+			rel = rs.readPos
+		case 3:
+			rel = r.Range(rs.readPos, max(av, rs.readPos))
+		case 4:
+			rel = av
+		case 5:
+			rel = r.Range(av, max(fs, av))
+		default:
+			rel = fs
+		}
+		rel = min(rel, fs)
+		return fmt.Sprintf("rst %d %d %d %d", ri, fs, rel, rn.now)
 	case 9: // read
 		var n int64
-		switch r.Pick(40, 40, 20) {
+		left := rs.avail() - rs.readPos
+		if rs.reset && rs.reliable > rs.readPos {
+			left = rs.reliable - rs.readPos // what is still to be read reliably
+		}
+		switch r.Pick(25, 25, 20, 15, 15) {
 		case 0:
 			n = r.Range(1, 100)
 		case 1:
 			n = r.Range(100, 2000)
+		case 2:
+			n = 100_000 // larger than anything buffered
+		case 3:
+			n = max(left, 1) // exact fit
 		default:
-			n = 100_000
+			n = max(left, 0) + r.Range(1, 3) // just over
 		}
 		return fmt.Sprintf("rd %d %d", ri, n)
 	case 10:
@@ -288,7 +346,7 @@ func field(dump string, i int) int64 {
 
 // recvRoom peeks at the real controllers (generator steering only): stream highest, stream limit, connection room.
 func (rn *runner) recvRoom(ri int) (hr, lim, connRoom int64) {
-	d := flowcontrol.VerifDump(rn.rcv[ri].fc)
+	d := quic.VerifFCReceiveDump(rn.rcv[ri].s)
 	c := flowcontrol.VerifDump(rn.conn)
 	return field(d, 4), field(d, 5), field(c, 5) - field(c, 4)
 }
@@ -310,22 +368,7 @@ func errClass(err error) string {
 }
 
 func (rn *runner) suffix() string {
-	ids := make([]int, 0, len(rn.h.Completed))
-	for _, id := range rn.h.Completed {
-		ids = append(ids, int(id))
-	}
-	sort.Ints(ids)
-	var sb strings.Builder
-	for i, id := range ids {
-		if i > 0 {
-			sb.WriteByte(',')
-		}
-		sb.WriteString(strconv.Itoa(id))
-	}
-	if len(ids) == 0 {
-		sb.WriteByte('-')
-	}
-	return " | c=" + flowcontrol.VerifDump(rn.conn) + " done=" + sb.String()
+	return " | c=" + flowcontrol.VerifDump(rn.conn)
 }
 
 func (rn *runner) settle() {
@@ -377,6 +420,18 @@ func (rn *runner) AfterPanic(op string) string {
 	return "PANIC" + rn.suffix()
 }
 
+func (rn *runner) addSend(s *quic.SendStream, id protocol.StreamID) int {
+	rn.snd = append(rn.snd, &sendSt{s: s, id: id, wdone: make(chan int, 1)})
+	rn.sidx[id] = len(rn.snd) - 1
+	return len(rn.snd) - 1
+}
+
+func (rn *runner) addRecv(s *quic.ReceiveStream, id protocol.StreamID) int {
+	rn.rcv = append(rn.rcv, &recvSt{s: s, id: id, final: -1})
+	rn.ridx[id] = len(rn.rcv) - 1
+	return len(rn.rcv) - 1
+}
+
 func (rn *runner) Exec(op string) string {
 	f := strings.Fields(op)
 	if len(f) == 0 {
@@ -389,13 +444,33 @@ func (rn *runner) Exec(op string) string {
 		return 0
 	}
 	if f[0] == "init" {
-		if rn.conn != nil {
+		if rn.conn != nil || len(f) < 10 {
 			return "skip"
 		}
-		rn.rtt = utils.NewRTTStats()
-		rn.conn = flowcontrol.NewConnectionFlowController(protocol.ByteCount(arg(1)), protocol.ByteCount(arg(2)),
-			func(protocol.ByteCount) bool { return true }, rn.rtt, utils.DefaultLogger)
-		rn.h = quic.VerifFCNew(rn.conn)
+		for i := 2; i <= 5; i++ {
+			if arg(i) <= 0 { // 0 would be replaced by the default values in populateConfig
+				return "skip"
+			}
+		}
+		rn.client = f[1] == "c"
+		rn.h = quic.VerifFCNewConn(rn.client, &quic.Config{
+			InitialConnectionReceiveWindow: uint64(arg(2)), MaxConnectionReceiveWindow: uint64(arg(3)),
+			InitialStreamReceiveWindow: uint64(arg(4)), MaxStreamReceiveWindow: uint64(arg(5)),
+			EnableStreamResetPartialDelivery: true,
+		})
+		err := rn.h.PeerParameters(&wire.TransportParameters{
+			InitialMaxData:                 protocol.ByteCount(arg(6)),
+			InitialMaxStreamDataBidiLocal:  protocol.ByteCount(arg(7)),
+			InitialMaxStreamDataBidiRemote: protocol.ByteCount(arg(8)),
+			InitialMaxStreamDataUni:        protocol.ByteCount(arg(9)),
+			MaxBidiStreamNum:               1000,
+			MaxUniStreamNum:                1000,
+			EnableResetStreamAt:            true,
+		})
+		rn.conn = rn.h.ConnFC()
+		if err != nil {
+			return "E:other" + rn.suffix()
+		}
 		return "ok" + rn.suffix()
 	}
 	if rn.conn == nil {
@@ -415,16 +490,50 @@ func (rn *runner) Exec(op string) string {
 	}
 	var res string
 	switch f[0] {
-	case "snd.new":
-		id := protocol.StreamID(4 * len(rn.snd))
-		fc := flowcontrol.NewStreamFlowController(id, rn.conn, 0, 0, protocol.ByteCount(arg(1)), rn.rtt, utils.DefaultLogger)
-		rn.snd = append(rn.snd, &sendSt{s: rn.h.NewSendStream(id, fc), fc: fc, wdone: make(chan int, 1)})
-		res = strconv.Itoa(len(rn.snd) - 1)
-	case "rcv.new":
-		id := protocol.StreamID(4*len(rn.rcv) + 2)
-		fc := flowcontrol.NewStreamFlowController(id, rn.conn, protocol.ByteCount(arg(1)), protocol.ByteCount(arg(2)), 0, rn.rtt, utils.DefaultLogger)
-		rn.rcv = append(rn.rcv, &recvSt{s: rn.h.NewReceiveStream(id, fc), fc: fc, final: -1})
-		res = strconv.Itoa(len(rn.rcv) - 1)
+	case "open":
+		if len(f) < 2 {
+			return "skip"
+		}
+		var ss *quic.SendStream
+		var rs *quic.ReceiveStream
+		var id protocol.StreamID
+		var err error
+		switch f[1] {
+		case "lb":
+			ss, rs, id, err = rn.h.OpenBidi()
+		case "lu":
+			ss, id, err = rn.h.OpenUni()
+		case "pb", "pu":
+			// ids of peer-initiated streams: low bit = initiator (0 client, 1 server), 0x2 = unidirectional
+			k := 0
+			if f[1] == "pu" {
+				k = 1
+			}
+			id = protocol.StreamID(4*rn.nPeer[k] + int64(2*k))
+			if rn.client {
+				id++
+			}
+			ss, rs, err = rn.h.PeerOpens(id)
+			if err == nil {
+				rn.nPeer[k]++
+			}
+		default:
+			return "skip"
+		}
+		if err != nil {
+			res = "E:other"
+			break
+		}
+		sp, rp, sw, rw := "-", "-", "-", "-"
+		if ss != nil {
+			sp = strconv.Itoa(rn.addSend(ss, id))
+			sw = strconv.FormatInt(field(quic.VerifFCSendDump(ss), 1), 10)
+		}
+		if rs != nil {
+			rp = strconv.Itoa(rn.addRecv(rs, id))
+			rw = strconv.FormatInt(field(quic.VerifFCReceiveDump(rs), 5), 10)
+		}
+		res = fmt.Sprintf("s=%s r=%s id=%d sw=%s rw=%s", sp, rp, int64(id), sw, rw)
 	case "w":
 		s := sidx()
 		n := arg(2)
@@ -464,10 +573,9 @@ func (rn *runner) Exec(op string) string {
 		if s == nil {
 			return "skip"
 		}
-		quic.VerifFCUpdateSendWindow(s.s, protocol.ByteCount(arg(2)))
-		res = "ok"
+		res = errClass(rn.h.HandleMaxStreamDataFrame(&wire.MaxStreamDataFrame{StreamID: s.id, MaximumStreamData: protocol.ByteCount(arg(2))}))
 	case "cmax":
-		rn.conn.UpdateSendWindow(protocol.ByteCount(arg(1)))
+		rn.h.HandleMaxDataFrame(&wire.MaxDataFrame{MaximumData: protocol.ByteCount(arg(1))})
 		res = "ok"
 	case "pack":
 		if arg(1) <= 0 {
@@ -476,9 +584,13 @@ func (rn *runner) Exec(op string) string {
 		frames, sfs := rn.h.Pack(protocol.ByteCount(arg(1)), monotime.Time(arg(2)))
 		var parts []string
 		for _, sf := range sfs {
-			si := int(sf.Frame.StreamID) / 4
+			si, ok := rn.sidx[sf.Frame.StreamID]
+			if !ok {
+				parts = append(parts, fmt.Sprintf("X:stream-frame-for-unknown-stream:%d", int64(sf.Frame.StreamID)))
+				continue
+			}
 			end := int64(sf.Frame.Offset) + int64(sf.Frame.DataLen())
-			if si < len(rn.snd) && end > rn.snd[si].newEnd {
+			if end > rn.snd[si].newEnd {
 				rn.snd[si].newEnd = end
 			}
 			parts = append(parts, fmt.Sprintf("S:%d:%d:%d:%d", si, int64(sf.Frame.Offset), int64(sf.Frame.DataLen()), b2i(sf.Frame.Fin)))
@@ -488,15 +600,17 @@ func (rn *runner) Exec(op string) string {
 		for _, fr := range frames {
 			switch x := fr.Frame.(type) {
 			case *wire.StreamDataBlockedFrame:
-				ctl = append(ctl, fmt.Sprintf("SB:%d:%d", int(x.StreamID)/4, int64(x.MaximumStreamData)))
+				ctl = append(ctl, fmt.Sprintf("SB:%d:%d", rn.sidx[x.StreamID], int64(x.MaximumStreamData)))
 			case *wire.DataBlockedFrame:
 				ctl = append(ctl, fmt.Sprintf("DB:%d", int64(x.MaximumData)))
 			case *wire.MaxStreamDataFrame:
-				ctl = append(ctl, fmt.Sprintf("MS:%d:%d", (int(x.StreamID)-2)/4, int64(x.MaximumStreamData)))
+				ctl = append(ctl, fmt.Sprintf("MS:%d:%d", rn.ridx[x.StreamID], int64(x.MaximumStreamData)))
 			case *wire.MaxDataFrame:
 				ctl = append(ctl, fmt.Sprintf("MD:%d", int64(x.MaximumData)))
 			case *wire.StopSendingFrame:
-				ctl = append(ctl, fmt.Sprintf("X:stop_sending:%d", (int(x.StreamID)-2)/4))
+				ctl = append(ctl, fmt.Sprintf("X:stop_sending:%d", rn.ridx[x.StreamID]))
+			case *wire.MaxStreamsFrame:
+				ctl = append(ctl, fmt.Sprintf("X:max_streams:%d:%d", x.Type, int64(x.MaxStreamNum)))
 			default:
 				ctl = append(ctl, fmt.Sprintf("X:%T", x))
 			}
@@ -527,7 +641,11 @@ func (rn *runner) Exec(op string) string {
 		if s == nil || off < 0 || ln < 0 || ln > 1<<16 {
 			return "skip"
 		}
-		err := quic.VerifFCHandleStreamFrame(s.s, &wire.StreamFrame{StreamID: protocol.StreamID(4*arg(1) + 2),
+		if rn.h.ReceiveStreamGone(s.id) {
+			res = "gone" // completed and deleted from the streams map: the frame would be dropped
+			break
+		}
+		err := rn.h.HandleStreamFrame(&wire.StreamFrame{StreamID: s.id,
 			Offset: protocol.ByteCount(off), Data: make([]byte, ln), Fin: arg(4) == 1}, monotime.Time(arg(5)))
 		res = errClass(err)
 		if err == nil {
@@ -542,15 +660,24 @@ func (rn *runner) Exec(op string) string {
 		}
 	case "rst":
 		s := ridx()
-		if s == nil || arg(2) < 0 {
+		if s == nil || arg(2) < 0 || arg(3) < 0 || arg(3) > arg(2) {
 			return "skip"
 		}
-		err := quic.VerifFCHandleResetStreamFrame(s.s, &wire.ResetStreamFrame{StreamID: protocol.StreamID(4*arg(1) + 2),
-			FinalSize: protocol.ByteCount(arg(2)), ErrorCode: 7}, monotime.Time(arg(3)))
+		if rn.h.ReceiveStreamGone(s.id) {
+			res = "gone"
+			break
+		}
+		err := rn.h.HandleResetStreamFrame(&wire.ResetStreamFrame{StreamID: s.id,
+			FinalSize: protocol.ByteCount(arg(2)), ReliableSize: protocol.ByteCount(arg(3)), ErrorCode: 7}, monotime.Time(arg(4)))
 		res = errClass(err)
 		if err == nil {
 			s.final = arg(2)
-			s.reset = true
+			if !s.cancelled {
+				if (!s.reset && s.reliable == 0) || arg(3) < s.reliable {
+					s.reliable = arg(3)
+				}
+				s.reset = true
+			}
 		} else if !rn.errored {
 			rn.errored, rn.dead = true, 3
 		}
@@ -561,7 +688,8 @@ func (rn *runner) Exec(op string) string {
 			return "skip"
 		}
 		// Read blocks when nothing is readable and the stream is not finished: never call it then
-		readable := s.avail() > s.readPos || s.cancelled || s.reset || s.dead || (s.final >= 0 && s.readPos >= s.final)
+		readable := s.avail() > s.readPos || s.cancelled || s.dead || (s.reset && s.readPos >= s.reliable) ||
+			(!s.reset && s.final >= 0 && s.readPos >= s.final)
 		if !readable {
 			return "skip"
 		}
@@ -593,12 +721,7 @@ func (rn *runner) Exec(op string) string {
 		s.cancelled = true
 		res = "ok"
 	case "cupd":
-		// connection.go (sendPackets / maybeSendAckOnlyPacket): if offset := c.connFlowController.GetWindowUpdate(now); offset > 0 { queue MAX_DATA }
-		off := rn.conn.GetWindowUpdate(monotime.Time(arg(1)))
-		if off > 0 {
-			rn.h.QueueControlFrame(&wire.MaxDataFrame{MaximumData: off})
-		}
-		res = strconv.FormatInt(int64(off), 10)
+		res = strconv.FormatInt(int64(rn.h.QueueMaxData(monotime.Time(arg(1)))), 10)
 	default:
 		return "skip"
 	}
